@@ -12,11 +12,11 @@ CONSTANTS MaxVer, Deviations
 
 DevNames == {"Dev_StaleAfterHeldMutation"}
 
-VARIABLES val, cache, held, act, res
-vars == <<val, cache, held, act, res>>
-view == <<val, cache, held>>
+VARIABLES val, cache, held, qrule, act, res
+vars == <<val, cache, held, qrule, act, res>>
+view == <<val, cache, held, qrule>>
 
-Keys == {"S", "B", "P"}
+Keys == {"S", "B", "P", "U", "R", "Q"}
 Unset == 9                      \* "not set"
 NoCache == [k \in Keys |-> 8]     \* the cache is invalid
 Vers == 0..MaxVer
@@ -26,33 +26,44 @@ NoRes == [child |-> NoCache, back |-> TRUE, dev |-> ""]
 \* what a child must see: the values at launch time
 Current == [k \in Keys |-> val[k]]
 
-Set(k, v) == /\ v \in Vers /\ (k = "B" => v <= 1)
-             /\ val' = [val EXCEPT ![k] = v] /\ cache' = NoCache
+Set(k, v) == /\ v \in Vers /\ (k \in {"B", "R"} => v <= 1)
+             \* Q is converted according to the rule in force at the time of the assignment
+             /\ val' = [val EXCEPT ![k] = IF k = "Q" /\ ~qrule THEN v + 10 ELSE v] /\ cache' = NoCache
+             /\ UNCHANGED qrule
              /\ held' = IF k = "P" THEN FALSE ELSE held     \* a new list object replaces the held one
              /\ act' = Lab("set", k, v) /\ res' = NoRes
-Del(k) == /\ val[k] # Unset
+\* (deleting one name of a mirrored pair is not offered: the property does not say what becomes of the other)
+Del(k) == /\ val[k] # Unset /\ k # "R"
           /\ val' = [val EXCEPT ![k] = Unset] /\ cache' = NoCache
           /\ held' = IF k = "P" THEN FALSE ELSE held
+          /\ UNCHANGED qrule
           /\ act' = Lab("del", k, 0) /\ res' = NoRes
 \* p = $P : reading a mutable value hands out a reference and drops the cache
 ReadRef == /\ val["P"] # Unset
            /\ held' = TRUE /\ cache' = NoCache
-           /\ act' = Lab("readref", "P", 0) /\ res' = NoRes /\ UNCHANGED val
+           /\ act' = Lab("readref", "P", 0) /\ res' = NoRes /\ UNCHANGED <<val, qrule>>
 \* $P.append(x): read through the environment, then mutate in place
 MutateThroughEnv == /\ val["P"] # Unset /\ val["P"] < MaxVer
                     /\ val' = [val EXCEPT !["P"] = @ + 1] /\ cache' = NoCache
-                    /\ act' = Lab("mutenv", "P", 0) /\ res' = NoRes /\ UNCHANGED held
+                    /\ act' = Lab("mutenv", "P", 0) /\ res' = NoRes /\ UNCHANGED <<held, qrule>>
 \* p.append(x) through the retained reference: the environment is not told
 MutateHeld == /\ held /\ val["P"] # Unset /\ val["P"] < MaxVer
               /\ val' = [val EXCEPT !["P"] = @ + 1]
-              /\ act' = Lab("mutheld", "P", 0) /\ res' = NoRes /\ UNCHANGED <<cache, held>>
+              /\ act' = Lab("mutheld", "P", 0) /\ res' = NoRes /\ UNCHANGED <<cache, held, qrule>>
+
+\* the name-pattern rule is edited in place (`$XONSH_ENV_PATTERN_PATH.exclude.append('Q')` / remove):
+\* values already stored keep their type, later assignments follow the new rule
+\* (offered only while Q is unset: re-typing a value that is already stored is outside this model)
+ToggleRule == /\ val["Q"] = Unset
+              /\ qrule' = ~qrule
+              /\ act' = Lab("togglerule", "Q", 0) /\ res' = NoRes /\ UNCHANGED <<val, cache, held>>
 
 \* a child process is started, optionally with a per-command prefix `$S=v cmd` or a mask
 Launch(pk, pv) ==
-  /\ pk \in {"", "S", "B"} /\ pv \in Vers \cup {Unset} /\ (pk = "" => pv = 0) /\ (pk = "B" => pv \in {0, 1, Unset})
+  /\ pk \in {"", "S", "B", "R"} /\ pv \in Vers \cup {Unset} /\ (pk = "" => pv = 0) /\ (pk = "B" => pv \in {0, 1, Unset}) /\ (pk = "R" => pv \in {0, 1})
   /\ LET want == [k \in Keys |-> IF k = pk THEN pv ELSE val[k]] IN
      /\ act' = Lab("launch", pk, pv)
-     /\ UNCHANGED <<val, held>>
+     /\ UNCHANGED <<val, held, qrule>>
      /\ \/ res' = [child |-> want, back |-> TRUE, dev |-> ""]
            /\ cache' = IF pk = "" THEN want ELSE NoCache
         \/ /\ "Dev_StaleAfterHeldMutation" \in Deviations
@@ -60,13 +71,13 @@ Launch(pk, pv) ==
            /\ res' = [child |-> cache, back |-> TRUE, dev |-> "Dev_StaleAfterHeldMutation"]
            /\ cache' = cache
 
-Init == /\ val = [k \in Keys |-> IF k = "P" THEN 0 ELSE Unset] /\ cache = NoCache /\ held = FALSE
+Init == /\ val = [k \in Keys |-> IF k = "P" THEN 0 ELSE Unset] /\ cache = NoCache /\ held = FALSE /\ qrule = TRUE
         /\ act = Lab("init", "", 0) /\ res = NoRes
 
 Next == \/ \E k \in Keys, v \in Vers : Set(k, v)
         \/ \E k \in Keys : Del(k)
-        \/ ReadRef \/ MutateThroughEnv \/ MutateHeld
-        \/ \E pk \in {"", "S", "B"}, pv \in Vers \cup {Unset} : Launch(pk, pv)
+        \/ ReadRef \/ MutateThroughEnv \/ MutateHeld \/ ToggleRule
+        \/ \E pk \in {"", "S", "B", "R"}, pv \in Vers \cup {Unset} : Launch(pk, pv)
 
 Spec == Init /\ [][Next]_vars
 
